@@ -365,6 +365,9 @@ pub fn session_strategy() -> impl Strategy<Value = SessionCase> {
         1 => addr_strategy().prop_map(M::Goodbye),
         1 => addr_strategy().prop_map(M::PixelsComplete),
         1 => any::<u16>().prop_map(M::Count),
+        // look-alike neighbours: unpaced messages over a three-letter alphabet, so that consecutive messages of one
+        // session often agree in address, type, length and byte sum (or in a prefix / suffix) and still differ
+        3 => (0u16..2, 9u8..11, proptest::collection::vec(1u8..4, 2..=4)).prop_map(|(addr, ty, data)| M::Unknown { addr, ty, data }),
     ];
     let line = prop_oneof![
         6 => (addr_strategy(), prop_oneof![8 => 0u8..8, 1 => 8u8..13]).prop_map(|(a, s)| Line::Msg(M::Report(a, s))),
@@ -558,6 +561,64 @@ pub fn run(ctx: &Ctx) {
         }
         ctx.merge("session-bad-then-good", st);
         ctx.part_done("session-bad-then-good", true, json!({"sessions": sessions.len(), "what": "5 kinds of undecodable reply x 3 first messages x 3 second messages, then valid replies, on one bus instance"}));
+    }
+    // twin trains: consecutive messages on one bus that agree in everything a digest might look at - address, type,
+    // length, byte sum, xor, multiset of bytes, first and last bytes - and still differ. Each must go out as itself.
+    {
+        let mut st = Stats::new();
+        let mut trains: Vec<SessionCase> = vec![];
+        for n in [2usize, 3, 5, 16, 17, 64, 255] {
+            let base: Vec<u8> = (0..n).map(|i| (i as u8).wrapping_mul(37).wrapping_add(11)).collect();
+            let mut twins: Vec<Vec<u8>> = vec![];
+            let mut t = base.clone();
+            t.swap(0, n - 1);
+            twins.push(t); // same multiset
+            let mut t = base.clone();
+            t[0] = t[0].wrapping_add(1);
+            t[n - 1] = t[n - 1].wrapping_sub(1);
+            twins.push(t); // same sum
+            let mut t = base.clone();
+            t[0] ^= 0x40;
+            t[n - 1] ^= 0x40;
+            twins.push(t); // same xor
+            if n >= 3 {
+                let mut t = base.clone();
+                t[n / 2] ^= 0xFF;
+                twins.push(t); // same first and last bytes
+                let mut t = base.clone();
+                t.reverse();
+                twins.push(t);
+            }
+            for tw in &twins {
+                if *tw == base {
+                    continue;
+                }
+                for (addr, ty) in [(0x10u16, 9u8), (0xFFFF, 0xFE)] {
+                    let m = |d: &Vec<u8>| M::Unknown { addr, ty, data: d.clone() };
+                    trains.push(SessionCase { msgs: vec![m(&base), m(tw), m(&base), m(tw), m(tw)], tape: vec![], crlf: true, timeout_at_end: false, read_error_at: None });
+                }
+                if n <= 17 {
+                    // the same as data chunks (30 ms each: only the short ones)
+                    let m = |d: &Vec<u8>| M::Data { off: 0x10, data: d.clone() };
+                    trains.push(SessionCase { msgs: vec![m(&base), m(tw), m(&base)], tape: vec![], crlf: true, timeout_at_end: false, read_error_at: None });
+                }
+            }
+        }
+        // fixed-size messages that differ only in the address / the one data byte, alternating
+        for (a, b) in [(M::Hello(3), M::Query(3)), (M::Query(3), M::Query(0x0300)), (M::Req(3, 1), M::Req(3, 2)), (M::Goodbye(5), M::PixelsComplete(5)), (M::Count(0x0102), M::Count(0x0201))] {
+            let tape = if reply_expected(&a) { vec![Line::Msg(M::Report(3, 2)); 4] } else { vec![] };
+            trains.push(SessionCase { msgs: vec![a.clone(), b.clone(), a.clone(), b.clone()], tape, crlf: true, timeout_at_end: false, read_error_at: None });
+        }
+        let n_trains = trains.len();
+        for c in &trains {
+            if let Err(m) = check_session(c, &mut st) {
+                ctx.fail("session-twin-trains", serde_json::to_value(c).unwrap(), m);
+                break;
+            }
+            st.nontrivial(crate::engine::h64(c));
+        }
+        ctx.merge("session-twin-trains", st);
+        ctx.part_done("session-twin-trains", true, json!({"sessions": n_trains, "what": "consecutive messages on one bus instance that agree in address, type, length and in byte sum / xor / multiset / first and last bytes, and differ: each must be written as itself"}));
     }
     crate::engine::run_generated_opts(ctx, "session-generated", ctx.tier.pick(40_000, 600_000), 64, 2_000, session_strategy, |c, st| check_session(c, st));
 
